@@ -99,6 +99,20 @@ func (o *c02Origin) ServeHTTP(w http.ResponseWriter, r *http.Request) {
 	}
 }
 
+// c02DeclaredTrailers (round 5): HTTP/2 and HTTP/3 origins may send a trailer section after a
+// body whose length was declared (HTTP/1.1 cannot: trailers need chunked framing). Completes the
+// matrix declared length x trailers on the end-to-end lanes of these two protocols.
+func c02DeclaredTrailers(s *verifh.Session, sp *c02Spec) {
+	r := s.Rand()
+	if !sp.declared || len(sp.trailers) > 0 || r.Intn(3) != 0 {
+		return
+	}
+	for i := 1 + r.Intn(2); i > 0; i-- {
+		k := verifh.Pick(r, []string{"X-T", "X-Trail-Sum", "Grpc-Status"})
+		sp.trailers = append(sp.trailers, c02Field{k, strings.Trim(verifh.RandBytes(r, 1+r.Intn(12), "abcXYZ019-_=;,/"), " ")})
+	}
+}
+
 func c02NewOrigin() *c02Origin { return &c02Origin{cases: map[string]*c02Spec{}} }
 
 func TestVerif_C02_e2eh2(t *testing.T) {
@@ -154,6 +168,7 @@ func TestVerif_C02_e2eh2(t *testing.T) {
 			s.Count("earlier:" + k)
 		}
 		sp := c02GenSpec(s, false, true)
+		c02DeclaredTrailers(s, sp)
 		if hdrLimit > 0 {
 			c02ClampFields(sp)
 		}
@@ -178,7 +193,13 @@ func TestVerif_C02_e2eh2(t *testing.T) {
 			s.Count("body>window")
 		}
 		class := ""
-		if !sp.head && (sp.status == 204 || sp.status == 304) && sp.declared && len(sp.body) > 0 {
+		if !sp.head && (sp.status == 204 || sp.status == 304) && sp.declared && len(sp.body) > 0 && len(sp.trailers) > 0 {
+			// finding C02-3: the handler announced trailers, so Go's h2 server leaves the
+			// stream open after HEADERS and ends it with a second HEADERS frame; the client
+			// applies the Content-Length accounting to a status that never has a body
+			class = "h2-nobody-status-length-accounting"
+			s.Count("204/304+content-length+trailers-announced")
+		} else if !sp.head && (sp.status == 204 || sp.status == 304) && sp.declared && len(sp.body) > 0 {
 			// finding C02-1: a 204/304 response that carries a Content-Length (allowed for
 			// 304, RFC 9110 8.6) and END_STREAM on HEADERS gets http2's missingBody: every
 			// read fails with io.ErrUnexpectedEOF, auto-read fails the whole request
@@ -214,6 +235,9 @@ func c02CountSpec(s *verifh.Session, sp *c02Spec, mode c02Mode) {
 	}
 	if sp.status == 204 || sp.status == 304 {
 		s.Count("status-204/304")
+	}
+	if len(sp.trailers) > 0 && sp.bodyAllowed() && sp.declared {
+		s.Count("trailers-after-declared-length")
 	}
 	if len(sp.trailers) > 0 && sp.bodyAllowed() {
 		s.Count("trailers")
@@ -300,6 +324,7 @@ func TestVerif_C02_e2eh3(t *testing.T) {
 			s.Count("earlier:" + k)
 		}
 		sp := c02GenSpec(s, false, true)
+		c02DeclaredTrailers(s, sp)
 		mode := c02GenMode(s)
 		path := "/c" + strconv.Itoa(c)
 		origin.put(path, sp)
